@@ -95,8 +95,11 @@ def predicate(case, out):
     b = out["brush"]
     for val, name in ((1, "solid"), (0, "void")):
         cov = np.zeros((nx, ny), dtype=bool)
-        for p in range(nx):
-            for q in range(ny):
+        # every placement whose in-domain part is non-empty counts (the property speaks of "brush footprints whose in-domain part lies
+        # entirely within that region"; the centre itself may lie outside the design - needed for brushes that are not centrally symmetric)
+        r_ = len(b)
+        for p in range(-r_, nx + r_):
+            for q in range(-r_, ny + r_):
                 fp = footprint(b, p, q, nx, ny)
                 if fp and all(o[i, j] == val for i, j in fp):
                     for i, j in fp:
